@@ -36,12 +36,12 @@ CLAIMS = {
         ref="3 C04",
     ),
     "C05": dict(
-        technique="static analysis: raise-site classification, validate-before-write ordering at every explicit rejection, effect footprint of swap/shuffle, dropped-parameter rule for wrappers",
+        technique="static analysis: raise-site classification, validate-before-write ordering at every explicit rejection, effect footprint of swap/shuffle/clear, dead-parameter liveness analysis, IDDict override table vs dict-method call sites",
         text="Narrow: decides (a) that edits rejected for a missing/invalid ID raise the library's own error type at every explicit raise and every caller-keyed plain-container access, (b) that double_edge_swap and random_edge_shuffle insert/delete no key and touch no attribute or counter, (c) that aliases and thin wrappers forward every parameter, (d) that every explicit rejection (raise statement) in a mutator is reached before any table write of the rejected item, (e) that direction 'in'/'out' edits the tail/head side, clear()/clear_edges() have exactly their documented table footprint, update() forwards what it is given, the 'first' options of merge_duplicate_edges pick the smallest ID, no keyed dict method that IDDict does not override is used on a table without a guard, and every parameter of every method can influence what it does (dead-parameter analysis). Equality with a reference model after edit sequences is NOT decided.",
         ref="3 C05",
     ),
     "C06": dict(
-        technique="static analysis: alias analysis of view bindings, who-may-rebind the tables, no-memoisation lint, order-provenance tags, filter mode/operator table extraction",
+        technique="static analysis: alias analysis of view bindings, who-may-rebind the tables, no-memoisation lint, order-provenance tags, filter mode/operator table extraction, dead-parameter liveness analysis, side-literal table for directed statistics, zero-count pattern lints with embedded positive examples",
         text="Decides the mechanisms that make views and statistics live and ordered: views alias the live tables, tables are never rebound outside __init__/__setstate__, nothing is memoised, every ordered output follows the view, filter modes map to their comparison operators, view methods forward every parameter, from_view binds all table references, directed totals are sizes of unions (never sums of the two sides), one-sided directed statistics read their own side, stored attribute values are never replaced by a default through truthiness, and every parameter of every view method / stat function is live. Numerical definitions of statistics are not decided.",
         ref="3 C06",
     ),
@@ -61,17 +61,17 @@ CLAIMS = {
         ref="3 C09",
     ),
     "C10": dict(
-        technique="static analysis: writer/reader key-table extraction and comparison, sibling-branch footprint cross-check, role-by-test rule",
+        technique="static analysis: writer/reader key-table extraction and comparison, sibling-branch footprint cross-check, role-by-test and arc-orientation rules, forward taint from NumPy arrays to ID sinks, provenance resolution of IDs through helpers, dead-parameter liveness analysis",
         text="Narrow: decides that the dict-format writers and readers agree on keys and enumerations (incl. direction literals), that all class-to-class converter branches transfer nodes, edges and network attributes, that bipartite endpoints are classified by a test, not by position, and that the direction of every membership read from a DiGraph is taken from the orientation of the arc being enumerated (the writer uses the opposite convention consistently), that no label reaches a network-building call or a returned table after a detour through a NumPy array built from the labels, and that every parameter of every converter can influence its result (dead-parameter analysis). Round-trip equality of values is NOT decided.",
         ref="3 C10",
     ),
     "C11": dict(
-        technique="static analysis: delegation/forwarding checks on every reader/writer, delimiter symmetry, array-rank fact propagation, serialise-before-open dominance",
+        technique="static analysis: delegation/forwarding checks on every reader/writer, delimiter symmetry, array-rank fact propagation, serialise-before-open and write-after-serialise dominance on the CFG, provenance resolution of parsed fields, memo-key completeness, writer/reader mode agreement, dead-parameter liveness analysis",
         text="Narrow: decides that each read_*/write_* pair goes through the paired converters, forwards every parameter, joins and splits on the received delimiter (which is never rebound), forces text matrices two-dimensional, serialises before opening the file, casts node and edge fields of the text parsers with their own type from their own column (followed through helpers), keys any conversion memo by everything the stored value depends on, opens text formats in the same mode family on both sides, writes every serialised record and every member of a collection, stores the literal the reader dispatches on, and keeps every parameter of every reader/writer live. Round-trip equality of values is NOT decided.",
         ref="3 C11",
     ),
     "C12": dict(
-        technique="static analysis: ID/position kind inference on matrix builders, index-map provenance, definite assignment in degenerate branches",
+        technique="static analysis: ID/position kind inference on matrix builders, index-map provenance (view-order placement), definite assignment in degenerate branches, sparse/dense sibling dtype agreement, filtering-history signatures of zipped sequences, dead-parameter liveness analysis",
         text="Narrow: decides that rows/columns are addressed through index maps (never labels), that returned maps derive from the map that placed the entries and that this map numbers a view in view order, that degenerate-shape branches assign their result on every path, that the sparse and dense constructions of one builder use the same element type, that stored weights are never replaced by a default through truthiness, that sequences consumed pairwise were filtered identically, and that every parameter of every builder is live. Numerical equality with textbook definitions is NOT decided.",
         ref="3 C12",
     ),
@@ -81,7 +81,7 @@ CLAIMS = {
         ref="3 C13",
     ),
     "C16": dict(
-        technique="static analysis: member-shape kind rule at every edge-adding call in generators, must-reach add_nodes_from, skip-loop bound agreement",
+        technique="static analysis: member-shape kind rule at every edge-adding call in generators, must-reach add_nodes_from, skip-loop bound agreement, mixed-radix decoder extraction, alignment of pairwise-consumed sequences, dead-parameter liveness analysis",
         text="Narrow: decides that every generator hands add_edge/add_edges_from iterables of node IDs (never nested lists), adds the requested node set on every path, that skip-sampling loop bounds agree with their decoder's domain, that p in {0,1} branches are present or handled, that sequences consumed pairwise (orders and probabilities) are never reordered one without the other, and that every parameter of every generator is live. Edge counts and distributions are NOT decided.",
         ref="3 C16",
     ),
@@ -96,12 +96,12 @@ CLAIMS = {
         ref="3 C18",
     ),
     "C19": dict(
-        technique="static analysis: step identification by effect footprint and ordering/guard checks on the CFG of the cleanup methods and convert_labels_to_integers",
+        technique="static analysis: step identification by effect footprint and ordering/guard checks on the CFG of the cleanup methods and convert_labels_to_integers, transfer completeness of << and dual, encoding agreement in complement, None-vs-truthiness lint for selections",
         text="Narrow: decides the sequencing of cleanup (relabelling last, singleton removal before isolate removal), one flag per step with documented polarity, copy semantics of in_place, and that relabelling records old labels after re-insertion from zip(view, range) (or puts them into the re-inserted attribute dicts with the label applied last); that << and dual transfer nodes, edges and network attributes of their operands; that the two key encodings compared by complement() have the same canonical form; that optional selections of subhypergraph are defaulted by `is None`, not by truthiness. Set-theoretic results of derived networks are NOT decided.",
         ref="3 C19",
     ),
     "C20": dict(
-        technique="static analysis: ID/position kind inference over layout and drawing code, key provenance of layout dicts, guarded-range-division lint",
+        technique="static analysis: ID/position kind inference over layout and drawing code, key provenance of layout dicts, guarded-range-division lint, step order on the CFG of draw_simplices, canonical-identity lint for faces, dead-parameter liveness analysis",
         text="Narrow: decides that positions are addressed by label and arrays by position in the layout/drawing functions the property names, that every layout's keys come from the node view (edge positions from the edge view; dicts filled in loops are checked store by store), that a rescaling that divides by a max-min range handles the constant input, that draw_simplices cuts to max_order before taking maximal simplices, that faces are never de-duplicated by raw combination tuples, and that every parameter of every layout is live. Rendered geometry is NOT decided.",
         ref="3 C20",
     ),
